@@ -76,6 +76,10 @@ def run(ctx):
             ["L", ["-3", "-n", "-a", "-v", "CVSS:3.0/AV:N/AC:L/PR:N/UI:N/S:U/C:H/I:H/A:H/E:F"], []],
             ["X", "CVSS:3.٣/AV:N/AC:L/Au:N/C:P/I:P/A:P and CVSS:3.1/AV:N/AC:L/PR:N/UI:N/S:U/C:H/I:H/A:H"],
             ["C", "3", "CVSS:3.1/AV:N/AC:L/PR:N/UI:N/S:U/C:H/I:H/A:H/é:1"]]
+    # near-valid strings, systematically: every enclosure of a vector of every version, single edits
+    for v in "234":
+        ops += [["C", v, t] for t in core.structural_battery(v, rng) if isinstance(t, str)]
+        ops += [["R", v, "5.0/" + t] for t in core.structural_battery(v, rng, 6)[:13] if isinstance(t, str)]
     # bulk score comparison: every scoring-group assignment of v4 in random contexts (covers every macrovector and
     # its neighbours), v2 low-end family, singleton spellings, random vectors
     import itertools
